@@ -148,6 +148,9 @@ Definition obj_code (o : obj) : nat :=
 
 Definition converges_codes (d : devs) (sh : shape) (I : image) (tr : list event) (verdict : status) (determined : bool)
   : list nat :=
+  (* a plan that had started is durably NotStarted (reachable only by crashing a recovery): nobody will ever
+     resume it, it never reaches a terminal state *)
+  if status_eqb (cst I OPlan) NotStarted && existsb (fun o => negb (status_eqb (cst I o) NotStarted)) (all_objs sh) then [16] else
   if negb (status_eqb (cst I OPlan) Running) then [] else    (* not resumed: nothing to converge (C11) *)
   match released_image tr with
   | None => [10]                                             (* Wait did not return *)
@@ -167,7 +170,8 @@ Definition mon_converges (d : devs) (sh : shape) (I : image) (tr : list event) (
 
 (* [0] holds | the codes: 10 no release; 11 plan not terminal; 12 k: an object of kind k left Running with no known
    explanation; 13 p a t: inconsistent (plan rule / action rule / start <= end; all 0: a sequence rule); 14 a deferred group of an entered scope never ran;
-   15 outcome differs from the uninterrupted run *)
+   15 outcome differs from the uninterrupted run; 16 the crash image shows a started plan as NotStarted: it will never
+   be resumed *)
 Definition mon_converges_diag (d : devs) (sh : shape) (I : image) (tr : list event) (verdict : status) (determined : bool)
   : list nat :=
   match converges_codes d sh I tr verdict determined with [] => [0] | l => l end.
